@@ -557,7 +557,12 @@ def gen_reader(dbmap_path, outp, tier):
             if prop_perm is not None:
                 inner = inner[1:] + inner[:1]
             kids = [item(j) for j in range(len(nodes)) if nodes[j]["parent"] == i]
-            return '%s<Item class="%s" referent="%s">%s<Properties>%s%s</Properties>%s%s</Item>' % (nl, attr(n["class"]), attr(referents[i]), nl, (nl + " ").join([""] + inner) if nl else "".join(inner), nl, "".join(kids), nl)
+            cm = "<!-- a comment, legal anywhere between elements -->" if "comments" in extras else ""
+            props_xml = '<Properties>%s%s%s</Properties>' % (cm, (nl + " ").join([""] + inner) if nl else "".join(inner), nl)
+            if "props-after-children" in extras:
+                # the document lists what an Item may contain, not an order
+                return '%s<Item class="%s" referent="%s">%s%s%s%s%s</Item>' % (nl, attr(n["class"]), attr(referents[i]), "".join(kids), nl, props_xml, cm, nl)
+            return '%s<Item class="%s" referent="%s">%s%s%s%s%s%s</Item>' % (nl, attr(n["class"]), attr(referents[i]), cm, nl, props_xml, cm, "".join(kids), nl)
 
         body_items = "".join(item(i) for i in range(len(nodes)) if nodes[i]["parent"] is None)
         used = set()
@@ -657,7 +662,7 @@ def gen_reader(dbmap_path, outp, tier):
         for indent in ("none", "newline", "tabs", "spaces"):
             doc, mode = render(dom, base_refs, None, indent, set(), False, False)
             emit(doc, exp, "indentation", mode)
-        for ex in ("meta-first", "meta-last", "external-first", "external-last", "studio-attrs", "declaration", "leading-ws"):
+        for ex in ("meta-first", "meta-last", "external-first", "external-last", "studio-attrs", "declaration", "leading-ws", "props-after-children", "comments"):
             doc, mode = render(dom, base_refs, None, "newline", {ex}, False, False)
             emit(doc, exp, "optional:" + ex, mode)
         doc, mode = render(dom, base_refs, None, "newline", {"meta-first", "external-first", "studio-attrs", "declaration"}, False, False)
